@@ -727,6 +727,12 @@ class NormGetter(FieldMethod):
 
 
 class Orientation(FieldMethod):
+    needs_nv_thorough = (1, 2, 3)       # 4 components: non-linear clauses beyond the solver budget, bounded tier only
+
+    def configs(s, tier):
+        out = FieldMethod.configs(s, tier)
+        return [c for c in out if c['nvdim'] in s.needs_nv_thorough]
+
     # integer-typed value arrays: the quotient is not an integer, the result must be a floating field
     extra_cfg = ({'ndim': 1, 'nvdim': 3, 'adtype': 'int'}, {'ndim': 2, 'nvdim': 1, 'adtype': 'int'})
 
